@@ -71,7 +71,7 @@ fn run_script(cfg: &Config, script: &[Step], rng: &mut Rng, out: &mut CaseOut) {
         order.push((*t, 99, k));
     }
     order.sort();
-    out.sig(&(cfg.kind, cfg.consumers.iter().map(|c| (c.sync, c.keep)).collect::<Vec<_>>()));
+    out.sig(&(cfg.kind, cfg.passthrough, cfg.consumers.iter().map(|c| (c.sync, c.keep)).collect::<Vec<_>>()));
     if cfg.badframes {
         out.sig(&cfg.strategy);
         for s in &obs.lane.sent {
@@ -119,6 +119,7 @@ fn run_script(cfg: &Config, script: &[Step], rng: &mut Rng, out: &mut CaseOut) {
         "socket_caps": [cfg.cap_sock_out, cfg.cap_sock_in],
         "empty_timeout_ms": cfg.timeout_ms,
         "bad_frame_strategy": cfg.strategy.name(),
+        "pass_through_runtime": cfg.passthrough,
         "steps": script.len(),
         "end": cfg.end.name(),
         "frames": sum.frames,
@@ -337,13 +338,14 @@ fn serde_json_pretty(j: &common::Json) -> String {
 fn random_part(s: &mut Session, name: &str, kind: LaneKind, cases: u64) {
     s.part(
         name,
-        "seeded conversation of <= 80 steps: 1-4 consumers (all SYNC/KEEP_LINKED combinations) attach at scripted points, commands, spontaneous lane changes, stalls, pacing, drops, lane frame budget; channel capacities 4..4096; non-trivial when >= 2 consumers were linked and >= 1 event was delivered; distinct by the global order of (observer, frame kind) receipts",
+        "seeded conversation of <= 80 steps: 1-4 consumers (all SYNC/KEEP_LINKED combinations) attach at scripted points, commands, spontaneous lane changes, stalls, pacing, drops, lane frame budget; channel capacities 4..4096; non-trivial when >= 2 consumers were linked and >= 1 event was delivered; distinct by the global order of (observer, frame kind) receipts; on a map lane every fourth conversation runs through the pass-through variant of the runtime (NoInterpretation, bodies handed on as the lane wrote them)",
         false,
         cases,
         |_i, rng, out| {
             let (cfg, script) = {
                 let mut g = Gen::new(rng);
-                let cfg = g.config(kind);
+                let mut cfg = g.config(kind);
+                cfg.passthrough = passthrough_share(kind, _i);
                 let script = g.script(&cfg, MAX_OPS);
                 (cfg, script)
             };
@@ -352,16 +354,24 @@ fn random_part(s: &mut Session, name: &str, kind: LaneKind, cases: u64) {
     );
 }
 
+/// Every fourth conversation of the random map parts runs through the pass-through variant of the map
+/// runtime (`NoInterpretation`); decided by the case index, so that the generated conversations are
+/// what they were.
+fn passthrough_share(kind: LaneKind, case: u64) -> bool {
+    kind == LaneKind::Map && case % 4 == 3
+}
+
 fn fault_part(s: &mut Session, name: &str, kind: LaneKind, cases: u64) {
     s.part(
         name,
-        "seeded conversation of <= 120 steps as in the parts `value` / `map`, with a finite empty_timeout (20 / 60 / 300 ms of virtual time), virtual-time steps (a third of the timeout ... three timeouts), lane-side faults (the lane drops its reader of the runtime's output and keeps its writer, alone or followed by commands with quiet points; the lane closes its writer and keeps reading) and the pattern `everybody leaves while a write is pending - events - the timeout passes - events - a new consumer attaches - events spaced by less than the timeout`; a socket too small for one request frame half of the time; the link may close before the end action: then every served consumer must have been told `unlinked`, a runtime whose link provably closed must have terminated, and the runtime must not stop by inactivity while it serves a consumer; non-trivial when >= 1 consumer was linked and >= 1 event was delivered; counters `fault/*`, `inactivity/*`; distinct by the global order of (observer, frame kind) receipts",
+        "seeded conversation of <= 120 steps as in the parts `value` / `map`, with a finite empty_timeout (20 / 60 / 300 ms of virtual time), virtual-time steps (a third of the timeout ... three timeouts), lane-side faults (the lane drops its reader of the runtime's output and keeps its writer, alone or followed by commands with quiet points; the lane closes its writer and keeps reading) and the pattern `everybody leaves while a write is pending - events - the timeout passes - events - a new consumer attaches - events spaced by less than the timeout`; a socket too small for one request frame half of the time; the link may close before the end action: then every served consumer must have been told `unlinked`, a runtime whose link provably closed must have terminated, and the runtime must not stop by inactivity while it serves a consumer; non-trivial when >= 1 consumer was linked and >= 1 event was delivered; counters `fault/*`, `inactivity/*`; distinct by the global order of (observer, frame kind) receipts; on a map lane every fourth conversation runs through the pass-through variant of the runtime (NoInterpretation, bodies handed on as the lane wrote them)",
         false,
         cases,
         |_i, rng, out| {
             let (cfg, script) = {
                 let mut g = Gen::new(rng);
-                let cfg = g.fault_config(kind);
+                let mut cfg = g.fault_config(kind);
+                cfg.passthrough = passthrough_share(kind, _i);
                 let script = g.script(&cfg, MAX_FAULT_OPS);
                 (cfg, script)
             };
@@ -375,13 +385,14 @@ const MAX_FAULT_OPS: usize = 120;
 fn inactivity_part(s: &mut Session, name: &str, kind: LaneKind, cases: u64) {
     s.part(
         name,
-        "seeded conversation of <= 120 steps, empty_timeout 20 / 60 ms of virtual time, no lane-side faults: three to six consumers (all SYNC/KEEP_LINKED combinations, paced and tiny channels in half of the conversations) attach one after the other, sometimes two at a time; each leaves with both halves at once or half by half (up to a timeout apart); after a departure the lane sends 0-3 events with a quiet point after each (two make the read task see the departure, the write task sees it at once) and a gap passes that is well below / 1-3 ms below / at / 1-3 ms above / well above the timeout before the next consumer attaches; now and then the write task is parked on a write to a lane that is not reading when its consumer leaves. Every conversation ends with the final idle period: every brake released, everybody leaves, three lane events with a quiet point after each, then nothing for five timeouts. Rules (C17): the runtime has terminated by itself at the end of the final idle period; it never stops for inactivity while a served consumer listens, nor less than one timeout after a served consumer was attached / its reader left / its command writer left (virtual instants, work in the very instant of the stop skipped). The C07 oracles run as well. Counters `c17/*`; non-trivial when a consumer was linked, an event delivered and the final idle period reached; distinct by the global order of (observer, frame kind) receipts",
+        "seeded conversation of <= 120 steps, empty_timeout 20 / 60 ms of virtual time, no lane-side faults: three to six consumers (all SYNC/KEEP_LINKED combinations, paced and tiny channels in half of the conversations) attach one after the other, sometimes two at a time; each leaves with both halves at once or half by half (up to a timeout apart); after a departure the lane sends 0-3 events with a quiet point after each (two make the read task see the departure, the write task sees it at once) and a gap passes that is well below / 1-3 ms below / at / 1-3 ms above / well above the timeout before the next consumer attaches; now and then the write task is parked on a write to a lane that is not reading when its consumer leaves. Every conversation ends with the final idle period: every brake released, everybody leaves, three lane events with a quiet point after each, then nothing for five timeouts. Rules (C17): the runtime has terminated by itself at the end of the final idle period; it never stops for inactivity while a served consumer listens, nor less than one timeout after a served consumer was attached / its reader left / its command writer left (virtual instants, work in the very instant of the stop skipped). The C07 oracles run as well. Counters `c17/*`; non-trivial when a consumer was linked, an event delivered and the final idle period reached; distinct by the global order of (observer, frame kind) receipts; on a map lane every fourth conversation runs through the pass-through variant of the runtime (NoInterpretation, bodies handed on as the lane wrote them)",
         false,
         cases,
         |_i, rng, out| {
             let (cfg, script) = {
                 let mut g = Gen::new(rng);
-                let cfg = g.inactivity_config(kind);
+                let mut cfg = g.inactivity_config(kind);
+                cfg.passthrough = passthrough_share(kind, _i);
                 let script = g.inactivity_script(&cfg, MAX_FAULT_OPS);
                 (cfg, script)
             };
@@ -497,6 +508,17 @@ fn main() {
 /// Parts added for code no other part runs (coverage measurement, ranked gaps 11 and 12).
 fn extension_parts(s: &mut Session) {
     s.part(
+        "join-grid-passthrough",
+        "the map half of `join-grid` through `MapDownlinkRuntime::with_interpretation(.., NoInterpretation)` (event bodies reach the consumers as the lane wrote them, and are read as such), and once more with a third consumer that joins late with SYNC after a removal and two updates; the C07 oracles unchanged (`synced` with a replica - fold of the bodies received - that the lane held, every event in order, late joiners brought up to date, `unlinked` at the end); counters `passthrough/*`; distinct by the global order of receipts",
+        true,
+        script::PASSTHROUGH_GRID_CASES,
+        |i, rng, out| {
+            let (cfg, script, phase) = script::passthrough_grid_case(i);
+            out.count(&format!("phase-{phase:?}"));
+            run_script(&cfg, &script, rng, out);
+        },
+    );
+    s.part(
         "badframe-directed",
         "every (lane kind; frame fault: 12 event bodies that are not map messages [map] or 4 envelope faults - a request tag, `linked` announcing a body, a node name that is not UTF-8, a strict prefix of a frame followed by the end of the stream; strategy of the map runtime: always-abort, report(always-abort), the same boxed, always-ignore, boxed report(always-ignore); point of a two-consumer conversation: established / behind the link answer while a consumer joins / nobody attached / before a late joiner / back to back with events while a consumer is stalled; 8 option combinations). Rules: `badframe/*` and the C07 oracles (abort: the runtime terminates and every served consumer is told `unlinked`, nothing after it; ignore: nobody is unlinked and the well-formed events are delivered completely and in order, `synced` states consistent; no consumer receives an event the lane did not send; envelope faults: grammar, events so far, `unlinked` if the runtime stops - whether it does is counted). Non-trivial when a consumer was linked and the bad frame completely written; distinct by the global order of receipts",
         true,
@@ -546,7 +568,8 @@ fn extension_parts(s: &mut Session) {
             |_i, rng, out| {
                 let (cfg, script) = {
                     let mut g = Gen::new(rng);
-                    let cfg = g.burst_config(kind);
+                    let mut cfg = g.burst_config(kind);
+                    cfg.passthrough = passthrough_share(kind, _i);
                     let script = g.script(&cfg, MAX_OPS);
                     (cfg, script)
                 };
